@@ -341,7 +341,7 @@ impl<'s, const M: usize> Exec<'s, M> {
                                 self.stats.hit("limit_decision_granted");
                                 if held_usable + new_usable > l {
                                     let facts = if held_usable > l { "held-above-limit" } else { "held-within-limit" };
-                                    if self.reset_since_limit_set && held_usable <= l {
+                                    if self.reset_since_limit_set {
                                         // the limit was in force before the reset and is no longer
                                         self.violate(
                                             "C06",
